@@ -134,7 +134,8 @@ class Gen:
         if k == "strref":
             return ("s", utf8_text(rng, pick_len(rng, 64, focus)))
         if k == "strcap":
-            return ("s", utf8_text(rng, pick_len(rng, ty[1], focus)))
+            n_ = pick_len(rng, ty[1], focus)
+            return ("s", prefixed_text(rng, n_) if rng.chance(1, 5) else utf8_text(rng, n_))
         if k == "vec":
             n = pick_len(rng, ty[2], focus)
             return ("L", [self.val(ty[1], present if present in ("all", "none") else None, False, depth + 1) for _ in range(n)])
@@ -239,7 +240,8 @@ class Gen:
         if k == "strref":
             return cbor.T(utf8_text(rng, pick_len(rng, 300 if rng.chance(1, 8) else 48, focus)))
         if k == "strcap":
-            return cbor.T(utf8_text(rng, pick_len(rng, ty[1], focus)))
+            n_ = pick_len(rng, ty[1], focus)
+            return cbor.T(prefixed_text(rng, n_) if rng.chance(1, 5) else utf8_text(rng, n_))
         if k == "vec":
             n = pick_len(rng, ty[2], focus)
             return [self.wire(ty[1], None, False, depth + 1) for _ in range(n)]
@@ -338,6 +340,18 @@ def utf8_reps():
              "\u20e3", "\u3000", "\ufe00", "\ufe0e", "\ufe0f", "\ufff9", "\ufffc", "\U0001f1e6", "\U0001f1ff", "\U0001f3fb", "\U0001f3ff",
              "\U000e0100", "\U000e01ef", "\U0001f468", "\U0001f600"]
     return reps
+
+
+TEXT_PREFIXES = ["data:", "data:image/png;base64,", "http://", "https://", "javascript:", "file:///", "//", "#", "?", "/", "./", "../", "\\\\", "%00",
+                 "mailto:", "urn:", "about:blank", "<", "&amp;", "{", "[", "\"", "'", " ", "\t", "0x", "-", "+", "null", "true"]
+
+
+def prefixed_text(rng, n):
+    """text of n bytes that starts with something a 'smart' helper might single out (a URL scheme, markup, quoting, literals)"""
+    p = rng.choice(TEXT_PREFIXES).encode()
+    if len(p) > n:
+        return utf8_text(rng, n)
+    return p + utf8_text(rng, n - len(p))
 
 
 def subsets_or_sample(labels, rng, limit):
